@@ -366,7 +366,7 @@ int main(int argc, char **argv) {
   }
 
   const long MAXEXEC_BOUNDED = 400000;             // bounds 0,1,2 are expected to complete
-  const long MAXEXEC_UNBOUNDED = th ? 8000 : 6000; // extra executions granted to the unbounded search
+  const long MAXEXEC_UNBOUNDED = th ? 8000 : 600; // extra executions granted to the unbounded search
   bool any_incomplete = false;
   for (auto &P : progs) {
     if (H.elapsed() > H.deadline_s) { any_incomplete = true; break; }
